@@ -295,6 +295,8 @@ def check_D1(ctx, facts, rule='C05.D1'):
                 rv = s['rv']
                 if rv['k'] == 'aggregate' and rv.get('agg') == 'adt' and strip_generics(rv['adt']) == P + 'KeyspaceDiff':
                     fl = dict(zip(rv['fields'], rv['ops']))
+                    if 'modified' not in fl or 'removed' not in fl:
+                        continue          # (the two lists travel in another shape: this structural clause cannot read it — `good` stays false, fail closed)
                     mb = flow.backward([op_local(fl['modified'])])
                     rb = flow.backward([op_local(fl['removed'])])
                     good = bool(part[0] & mb) and not (part[1] & mb) and bool(part[1] & rb) and not (part[0] & rb)
